@@ -131,7 +131,8 @@ Proof. exact copy_options_applied_wild_proof. Qed.
 
 (* the notifier for several sources (no condition on the landing paths): the notifications for
    non-directories are, match by match and in order, the destination paths of the source
-   non-directories ([nd_paths_all]: nd_paths of the 1st match at its landing path, then of the 2nd ...) *)
+   non-directories ([nd_paths_all]: nd_paths of the 1st match at its landing path, then of the 2nd ...),
+   and a directory is only ever notified with the destination path of a source directory of some match *)
 Theorem notifier_exact_wild :
   forall o sroot, wf_src sroot -> links_consistent sroot ->
   forall fs src dst r srcs sns,
@@ -140,13 +141,46 @@ Theorem notifier_exact_wild :
     Forall2 (fun s sn => s_resolve sroot (rooted s) = inl sn) srcs sns ->
     exists st', copy_top o sel_all sroot fs src dst = (st', None) /\
       length (xr_landings r) = length srcs /\
-      map fst (filter (fun pb => negb (snd pb)) (rev (c_notifs st'))) = nd_paths_all (xr_landings r) sns.
+      map fst (filter (fun pb => negb (snd pb)) (rev (c_notifs st'))) = nd_paths_all (xr_landings r) sns /\
+      (forall q, In (q, true) (rev (c_notifs st')) ->
+         exists j Lj snj rel s1, nth_error (xr_landings r) j = Some Lj /\ nth_error sns j = Some snj /\
+           q = Lj ++ rel /\ s_lookup snj rel = Some s1 /\ is_dir (sdent s1) = true).
 Proof. exact notifier_exact_wild_proof. Qed.
+
+(* landing_clear discharged (one literal source): the directories made for the copy proper and the
+   source's own paths never violate it; what remains is ensureDstPath, and for that it is enough
+   that the resolved ensure path of dst ([ensure_arg]: dst without its last component, or dst itself
+   when that is empty, "." or "..") is a prefix of the landing path - e.g. every dst for which
+   ensure_arg dst = [] ("n", ""), dst = "/", "a/b/", "a/b".  (It fails exactly for a dst whose
+   cleaned form is shorter than its ensure path, like "a/x/..": see ex_dotdot_repaired.) *)
+Theorem landing_clear_of_ensure_prefix :
+  forall o sroot, wf_src sroot ->
+  forall V0 src dst r sn L,
+    o_wild o = false -> x_isdir (xview_of V0 []) = true -> overlay_all o sroot V0 src dst = inl r ->
+    s_resolve sroot (rooted src) = inl sn -> xr_landings r = [L] ->
+    (ensure_arg dst <> [] -> forall ep, spec_resolve (xview_of V0) (ensure_arg dst) = inl ep -> exists t, L = ep ++ t) ->
+    landing_clear r sn L.
+Proof. exact landing_clear_of_prefix. Qed.
+
+(* ... and the cp -a theorem with that hypothesis instead of landing_clear *)
+Theorem copy_into_empty_faithful_ensure_partial :
+  forall o sroot, wf_src sroot -> links_consistent sroot ->
+  forall fs src dst r ms sn L m,
+    o_wild o = false -> empty_dst fs ->
+    overlay_all o sroot (view_of_fs fs) src dst = inl r ->
+    parse_of o = Some ms -> s_resolve sroot (rooted src) = inl sn ->
+    xr_landings r = [L] -> xr_merged r = [m] ->
+    (ensure_arg dst <> [] -> forall ep, spec_resolve (xview_of (view_of_fs fs)) (ensure_arg dst) = inl ep -> exists t, L = ep ++ t) ->
+    exists st', copy_top o sel_all sroot fs src dst = (st', None) /\
+                tree_iso o ms m sn L (view_of_fs (c_fs st')).
+Proof. exact copy_into_empty_faithful_ensure_proof. Qed.
 
 Print Assumptions copy_into_empty_faithful_partial.
 Print Assumptions copy_into_empty_faithful_wild_partial.
 Print Assumptions copy_options_applied_wild_partial.
 Print Assumptions notifier_exact_wild.
+Print Assumptions landing_clear_of_ensure_prefix.
+Print Assumptions copy_into_empty_faithful_ensure_partial.
 Print Assumptions copy_options_applied_partial.
 Print Assumptions notifier_exact_partial.
 
@@ -273,3 +307,19 @@ Example ex_wild_partition :
   | _, _, _ => false
   end = true.
 Proof. vm_compute. reflexivity. Qed.
+
+(* the hypothesis of landing_clear_of_ensure_prefix on the case of ex_options (dst "x/y": the ensure
+   path resolves to x, the copy lands at x/y) and on dst "/" (ensure path = the root) *)
+Example ex_ensure_prefix :
+  match overlay_all o_all ex_src (view_of_fs fs_empty) n_d [120; 47; 121],
+        spec_resolve (xview_of (view_of_fs fs_empty)) (ensure_arg [120; 47; 121]),
+        overlay_all o_plain ex_src (view_of_fs fs_empty) [] s_slash,
+        spec_resolve (xview_of (view_of_fs fs_empty)) (ensure_arg s_slash) with
+  | inl r, inl ep, inl r', inl ep' =>
+      (match xr_landings r, xr_landings r' with
+       | [L], [L'] => is_prefix ep L && path_eqb ep [n_x] && path_eqb L [n_x; n_y] && is_prefix ep' L'
+       | _, _ => false end)
+  | _, _, _, _ => false
+  end = true.
+Proof. vm_compute. reflexivity. Qed.
+
